@@ -96,6 +96,13 @@ def find_cause_pep484585_container_args_1(
     # ....................{ SATISFY ~ empty                }....................
     # If either...
     if (
+        # This container is *NOT* a collection (e.g., is a generator or other
+        # one-shot iterable matched by a quasi-iterable hint like
+        # "collections.abc.Iterable[...]"), this container is neither sized nor
+        # safely reiterable. The items of this container are *NOT* type-checked,
+        # exactly as in the code type-checking this container. Critically, the
+        # len() builtin called below raises "TypeError" for this container *OR*...
+        not isinstance(cause.pith, Collection) or
         # This container is empty, *ALL* items of this container (of which there
         # are none) are necessarily valid *OR*...
         #
